@@ -289,7 +289,10 @@ class String(Type):
     @staticmethod
     def read(file_object):
         length = VarInt.read(file_object)
-        return file_object.read(length).decode("utf-8")
+        data = file_object.read(length)
+        if len(data) < length:
+            raise EOFError("Unexpected end of message.")
+        return data.decode("utf-8")
 
     @staticmethod
     def send(value, socket):
